@@ -209,7 +209,7 @@ func init() {
 	names := []string{"id range", "ltime lower bound", "ltime upper bound", "ftime lower bound", "cport equality", "id range OR cport bound (lookup + no lookup)", "cbytes bound", "tag", "sport equality AND id bound", "time: some packet in range"}
 	for f, n := range names {
 		c02 = append(c02, HarnessSpec{Pkg: ix, Func: "ZZ_C02_Search", Solver: "cvc5", Desc: "query form: " + n,
-			Quick: tier(S(f, 1, []int{2, 3, 3, 3, 3, 2, 3, 3, 3, 2}[f], []int{2, 2, 2, 2, 2, 1, 2, 2, 2, 2}[f], []int{1, 2, 2, 2, 2, 1, 2, 2, 2, 1}[f], 1, 2)), Thorough: tier(S(f, 1, 4, 2, 2, 1, 2)),
+			Quick: tier(S(f, 1, []int{2, 3, 3, 3, 3, 2, 3, 3, 3, 2}[f], []int{2, 2, 2, 2, 2, 1, 2, 2, 2, 2}[f], []int{1, 2, 2, 2, 2, 1, 2, 2, 2, 1}[f], 1, 2)), Thorough: tier(S(f, 1, []int{4, 4, 4, 4, 4, 2, 4, 4, 4, 4}[f], 2, []int{2, 2, 2, 2, 2, 1, 2, 2, 2, 2}[f], 1, 2)),
 			Bounds: "SearchStreams over 1..2 index files (4 visible streams, one id shadowed by the newer file); query thresholds symbolic; sort key list, limit, skip, id restriction (symbolic allow bits) enumerated"})
 	}
 	c02 = append(c02, HarnessSpec{Pkg: ix, Func: "ZZ_C02_Search", Solver: "cvc5", Desc: "multi-key sorts whose first key ties",
